@@ -318,6 +318,20 @@ func check05(c *Case, o *Obs, rec Rec) (vs []viol, inconclusive string) {
 		preCls = ",after-SetTrailer"
 	}
 	add := func(obs, cls, what string) {
+		if c.Opt != "" {
+			// mux-option cases: the class is how the status compares with the limit
+			switch n := len(sc.Msg); {
+			case n <= 64:
+				cls = "msg<=64B"
+			case n <= 256:
+				cls = "msg<=256B"
+			default:
+				cls = "msg>256B"
+			}
+			if sc.Details {
+				cls += "+details"
+			}
+		}
 		if preCls != "" && obs != "call-not-delivered" {
 			// the metadata call is the structural class of these cases (codes
 			// and message shapes have their own cases without such a call)
@@ -344,7 +358,7 @@ func check05(c *Case, o *Obs, rec Rec) (vs []viol, inconclusive string) {
 		// generous watchdog + goroutine dump: the handler has returned its
 		// status, the request is still inside the mux, the client (send side
 		// open, waiting for the result) never got the status
-		add("status-not-delivered", "client-send-side-open", fmt.Sprintf("handler returned code %d after %d replies; the client, which keeps its send side open until it has the result, received no status within %v; the request is still inside larking: %s", sc.Code, rec.Sent, holdTimeout, ascii(clip(firstLines(o.Stuck, 12), 700))))
+		add("status-not-delivered", "client-send-side-open", fmt.Sprintf("handler returned code %d after %d replies; the client, which keeps its send side open until it has the result, received no status within %v; the request is still inside larking: %s", sc.Code, rec.Sent, holdTimeout, ascii(clip(larkingFrames(o.Stuck), 600))))
 		return vs, ""
 	}
 	if o.Timeout {
@@ -551,12 +565,18 @@ func check05(c *Case, o *Obs, rec Rec) (vs []viol, inconclusive string) {
 	return vs, ""
 }
 
-func firstLines(s string, n int) string {
-	l := strings.SplitN(s, "\n", n+1)
-	if len(l) > n {
-		l = l[:n]
+// larkingFrames lists the larking functions of a goroutine dump excerpt.
+func larkingFrames(dump string) string {
+	var fr []string
+	for _, ln := range strings.Split(dump, "\n") {
+		if strings.HasPrefix(ln, "larking.io/") || strings.HasPrefix(ln, "io.") || strings.HasPrefix(ln, "goroutine ") {
+			if i := strings.LastIndex(ln, "("); i > 0 && !strings.HasPrefix(ln, "goroutine ") {
+				ln = ln[:i]
+			}
+			fr = append(fr, ln)
+		}
 	}
-	return strings.Join(l, " | ")
+	return strings.Join(fr, " < ")
 }
 
 // answered reports that the client received a definite protocol-level answer.
@@ -913,7 +933,11 @@ func RunC05(r *mon.Run) {
 				method  string
 				replies int
 			}{{"Bidi", 0}, {"Bidi", 1}, {"Bidi", 3}, {"CS", 0}} {
-				for _, code := range []uint32{0, 1, 5, 13} {
+				holdCodes := []uint32{0, 5}
+				if r.Thorough() {
+					holdCodes = []uint32{0, 1, 5, 13, 17}
+				}
+				for _, code := range holdCodes {
 					c := &Case{Kind: "C05", Proto: pv.proto, Codec: pv.codec, Method: mv.method, Class: "client-send-side-open", Target: target, Hold: true,
 						Script: Script{Code: code, Msg: "50% done", Details: code == 5, Replies: mv.replies}}
 					if code == 0 && mv.method == "CS" {
